@@ -181,3 +181,43 @@ Proof. cbv zeta. repeat split; [discriminate|lia|cbn; lra|cbn; lia|exact P_C09_c
 Example C09_nonvacuous : let a := [0; 3; -4; 0] in
   a <> [] /\ last a 0 = 0 /\ last (cav (1/2) a) 0 = 3.5.
 Proof. cbn. repeat split; [discriminate|]. numR. unfold Rabs. repeat destruct (Rcase_abs _); lra. Qed.
+
+(** *** The models are the source (translator tie).
+    gen/Gen_quadrature.v is re-translated from /repo's eqsig/im.py (and eqsig/displacements.py) at the start of every run
+    of this check (translator/py2coq_numpy.py: Python [ast], whitelist grammar of NumPy vector expressions, fail-closed).
+    PROVED, for every [NumOps] instance (the Q run of the correspondence and the R theorems above alike) and for ALL
+    inputs: the translations of calc_arias_intensity (through _raw_calc_arias_intensity, inlined), calc_cav, calc_isv,
+    calc_integral_of_abs_velocity, calc_cumulative_abs_displacement, calc_integral_of_abs_acceleration ARE [arias]
+    (with c = np.pi / (2 * 9.81), np.pi an input; at R it is PI / (2 * 9.81)), [cav], [isv], [int_abs_vel] (twice) and
+    [int_abs_acc]; the translation of calc_unit_kinetic_energy IS [unit_ke] on every non-empty record (on the empty one
+    `kin_energy[0]` raises IndexError; the guard cannot be dropped: C09_unit_ke_empty_differs).
+    The functions that read the object's `.velocity` are translated with that series as an input [v]; the statements
+    instantiate it with the trap=True branch of the generated velocity function, which is what AccSignal.velocity calls.
+    NOT proved (still only decided by the correspondence): that NumPy/SciPy's cumsum, cumulative_trapezoid, diff, insert,
+    abs are the list primitives of lib/NpList.v (the translator's reading of each whitelisted call), binary64 rounding,
+    the object layer (AccSignal.velocity caching), and calc_cav_dp (loop over windows: outside the translator's grammar). *)
+From EQ Require Import gen.Gen_quadrature proofs.P_gen_quadrature.
+
+Theorem C09_arias_is_source : forall (T : Type) (ops : NumOps T) (pi dt : T) (a : list T),
+  gen_arias pi dt a = arias (ndiv pi (nmul (nofZ 2) (ndiv (nofZ 981) (nofZ 100)))) dt a.
+Proof. exact (@P_gen_quadrature.gen_arias_eq). Qed.
+Theorem C09_arias_is_source_R : forall (dt : R) (a : list R), gen_arias PI dt a = arias (PI / (2 * 9.81)) dt a.
+Proof. exact P_gen_quadrature.gen_arias_R. Qed.
+Theorem C09_cav_is_source : forall (T : Type) (ops : NumOps T) (dt : T) (a : list T), gen_cav dt a = cav dt a.
+Proof. exact (@P_gen_quadrature.gen_cav_eq). Qed.
+Theorem C09_isv_is_source : forall (T : Type) (ops : NumOps T) (dt : T) (a : list T),
+  gen_isv dt (fst (gen_velo_disp true dt a)) = isv dt a.
+Proof. exact (@P_gen_quadrature.gen_isv_eq). Qed.
+Theorem C09_int_abs_vel_is_source : forall (T : Type) (ops : NumOps T) (dt : T) (a : list T),
+  gen_int_abs_vel dt (fst (gen_velo_disp true dt a)) = int_abs_vel dt a /\
+  gen_cum_abs_disp dt (fst (gen_velo_disp true dt a)) = int_abs_vel dt a.
+Proof. intros T ops dt a. split; [exact (P_gen_quadrature.gen_int_abs_vel_eq dt a) | exact (P_gen_quadrature.gen_cum_abs_disp_eq dt a)]. Qed.
+Theorem C09_int_abs_acc_is_source : forall (T : Type) (ops : NumOps T) (dt : T) (a : list T),
+  gen_int_abs_acc dt a = int_abs_acc dt a.
+Proof. exact (@P_gen_quadrature.gen_int_abs_acc_eq). Qed.
+Theorem C09_unit_ke_is_source : forall (T : Type) (ops : NumOps T) (dt : T) (a : list T), a <> [] ->
+  gen_unit_ke (fst (gen_velo_disp true dt a)) = unit_ke dt a.
+Proof. exact (@P_gen_quadrature.gen_unit_ke_eq). Qed.
+Theorem C09_unit_ke_empty_differs : forall (T : Type) (ops : NumOps T) (dt : T),
+  gen_unit_ke (fst (gen_velo_disp true dt [])) <> unit_ke dt [].
+Proof. exact (@P_gen_quadrature.gen_unit_ke_empty_differs). Qed.
